@@ -36,6 +36,7 @@ RULE = (
     "the library call returns for the same inputs (against the saved library result and against the "
     "in-memory result), user-caused failures end non-zero with a message and leave no output file.  "
     "Non-trivial: strings one token away from valid bounds; failure cases; tables with misses."
+    ' Also: sources whose coordinates use 1e35 fill values and packed variables, GeoJSON strings longer than a file name, tables with identical rows and completely blank rows.'
 )
 LEVEL_TEXT = ("the complete bounds-string product over a 14-numeral palette, and every (command, dataset, input variant) of "
               "the stated product run through the real argument parser and handlers, compared with direct library calls")
